@@ -52,7 +52,7 @@ func (c *EventCache) Add(event *Event) (added bool) {
 
 	eventKey := c.getEventKey(event)
 
-	if c.isDeleted(eventKey, event.Pubkey) {
+	if c.isDeleted(eventKey, event.Pubkey) || c.isDeleted(event.ID, event.Pubkey) {
 		return false
 	}
 
@@ -114,7 +114,20 @@ func (c *EventCache) deleteByKind5(event *Event) {
 
 	for _, key := range keys {
 		c.delete(eventCacheDeletedEventKey{key, event.Pubkey})
+
+		// The key may be the id of a replaceable or addressable event,
+		// which is stored under its address.
+		if ev := c.getEventByID(key); ev != nil {
+			c.delete(eventCacheDeletedEventKey{c.getEventKey(ev), event.Pubkey})
+		}
 	}
+}
+
+func (c *EventCache) getEventByID(id string) *Event {
+	for ev := range c.evsIndex.idx[eventCacheEvsIndexKey{eventCacheEvsIndexKeyWhatID, id}] {
+		return ev
+	}
+	return nil
 }
 
 func (c *EventCache) delete(delEvKey eventCacheDeletedEventKey) (deleted bool) {
